@@ -100,6 +100,9 @@ impl<T: 'static> LocalEvent<T> {
         // not the contents.
         let base_ptr = place.get_mut().as_mut_ptr();
 
+        #[cfg(folo_verif)]
+        crate::verif_hook::created(base_ptr);
+
         // SAFETY: We are making a pointer to a known field at a compiler-guaranteed offset.
         let state_ptr = unsafe { base_ptr.byte_add(offset_of!(Self, state)) }.cast::<Cell<u8>>();
 
@@ -298,6 +301,11 @@ impl<T: 'static> LocalEvent<T> {
         // still exist because something was able to call this method.
         let event = unsafe { &*event_cell.get() };
 
+        #[cfg(folo_verif)]
+        crate::verif_hook::touch(event_cell.get());
+        #[cfg(folo_verif)]
+        crate::verif_hook::field(event_cell.get(), crate::verif_hook::FIELD_VALUE);
+
         let value_cell = event.value.get();
 
         // We can start by setting the value - this has to happen no matter what.
@@ -341,6 +349,8 @@ impl<T: 'static> LocalEvent<T> {
                     // short-lived references in this type, which cannot exist at the moment
                     // because the type is single-threaded and does not let any references
                     // escape.
+                    #[cfg(folo_verif)]
+                    crate::verif_hook::field(event_cell.get(), crate::verif_hook::FIELD_AWAITER);
                     let awaiter_cell_maybe = unsafe { event.awaiter.get().as_mut() };
                     // SAFETY: UnsafeCell pointer is never null.
                     let awaiter_cell = unsafe { awaiter_cell_maybe.unwrap_unchecked() };
@@ -366,6 +376,8 @@ impl<T: 'static> LocalEvent<T> {
                 // SAFETY: The only other potential references to the field are other short-lived
                 // references in this type, which cannot exist at the moment because
                 // the type is single-threaded and does not let any references escape.
+                #[cfg(folo_verif)]
+                crate::verif_hook::field(event_cell.get(), crate::verif_hook::FIELD_VALUE);
                 let value_cell_maybe = unsafe { event.value.get().as_mut() };
                 // SAFETY: UnsafeCell pointer is never null.
                 let value_cell = unsafe { value_cell_maybe.unwrap_unchecked() };
@@ -399,6 +411,9 @@ impl<T: 'static> LocalEvent<T> {
     #[inline]
     #[must_use]
     pub(crate) fn poll(&self, waker: &Waker) -> Option<Result<T, Disconnected>> {
+        #[cfg(folo_verif)]
+        crate::verif_hook::touch(std::ptr::from_ref(self));
+
         #[cfg(debug_assertions)]
         self.backtrace.replace(Some(capture_backtrace()));
 
@@ -430,11 +445,16 @@ impl<T: 'static> LocalEvent<T> {
         // Ref: docs/callback-safety.md.
         let new_waker = waker.clone();
 
+        #[cfg(folo_verif)]
+        crate::verif_hook::touch(std::ptr::from_ref(self));
+
         match self.state.get() {
             EVENT_BOUND => {
                 // SAFETY: The only other potential references to the field are other short-lived
                 // references in this type, which cannot exist at the moment because
                 // the type is single-threaded and does not let any references escape.
+                #[cfg(folo_verif)]
+                crate::verif_hook::field(std::ptr::from_ref(self), crate::verif_hook::FIELD_AWAITER);
                 let awaiter_cell_maybe = unsafe { self.awaiter.get().as_mut() };
                 // SAFETY: UnsafeCell pointer is never null.
                 let awaiter_cell = unsafe { awaiter_cell_maybe.unwrap_unchecked() };
@@ -490,6 +510,8 @@ impl<T: 'static> LocalEvent<T> {
         // SAFETY: The only other potential references to the field are other short-lived
         // references in this type, which cannot exist at the moment because
         // the type is single-threaded and does not let any references escape.
+        #[cfg(folo_verif)]
+        crate::verif_hook::field(std::ptr::from_ref(self), crate::verif_hook::FIELD_VALUE);
         let value_cell_maybe = unsafe { self.value.get().as_ref() };
         // SAFETY: UnsafeCell pointer is never null.
         let value_cell = unsafe { value_cell_maybe.unwrap_unchecked() };
@@ -516,6 +538,9 @@ impl<T: 'static> LocalEvent<T> {
         // Ref: docs/callback-safety.md.
         let new_waker = waker.clone();
 
+        #[cfg(folo_verif)]
+        crate::verif_hook::touch(std::ptr::from_ref(self));
+
         match self.state.get() {
             EVENT_AWAITING => {
                 // Extract the previous waker in a tight scope so the
@@ -528,6 +553,8 @@ impl<T: 'static> LocalEvent<T> {
                     // short-lived references in this type, which cannot exist at the moment
                     // because the type is single-threaded and does not let any references
                     // escape.
+                    #[cfg(folo_verif)]
+                    crate::verif_hook::field(std::ptr::from_ref(self), crate::verif_hook::FIELD_AWAITER);
                     let awaiter_cell_maybe = unsafe { self.awaiter.get().as_mut() };
                     // SAFETY: UnsafeCell pointer is never null.
                     let awaiter_cell = unsafe { awaiter_cell_maybe.unwrap_unchecked() };
@@ -591,6 +618,9 @@ impl<T: 'static> LocalEvent<T> {
         // still exist because something was able to call this method.
         let event = unsafe { &*event_cell.get() };
 
+        #[cfg(folo_verif)]
+        crate::verif_hook::touch(event_cell.get());
+
         let previous_state = event.state.get();
 
         // We can immediately set this because this is a single-threaded event, so there cannot
@@ -610,6 +640,8 @@ impl<T: 'static> LocalEvent<T> {
                 // SAFETY: The only other potential references to the field are other short-lived
                 // references in this type, which cannot exist at the moment because
                 // the type is single-threaded and does not let any references escape.
+                #[cfg(folo_verif)]
+                crate::verif_hook::field(event_cell.get(), crate::verif_hook::FIELD_AWAITER);
                 let awaiter_cell_maybe = unsafe { event.awaiter.get().as_mut() };
                 // SAFETY: UnsafeCell pointer is never null.
                 let awaiter_cell = unsafe { awaiter_cell_maybe.unwrap_unchecked() };
@@ -645,6 +677,9 @@ impl<T: 'static> LocalEvent<T> {
     /// or a disconnect - immediately retrievable.
     #[must_use]
     pub(crate) fn is_set(&self) -> bool {
+        #[cfg(folo_verif)]
+        crate::verif_hook::touch(std::ptr::from_ref(self));
+
         matches!(self.state.get(), EVENT_SET | EVENT_DISCONNECTED)
     }
 
@@ -667,6 +702,9 @@ impl<T: 'static> LocalEvent<T> {
         // still exist because something was able to call this method.
         let event = unsafe { &*event_cell.get() };
 
+        #[cfg(folo_verif)]
+        crate::verif_hook::touch(event_cell.get());
+
         // If we are still awaiting, the receiver (the caller) owns the stored waker and must
         // destroy it before disconnecting. We revert to EVENT_BOUND *before* dropping the waker
         // so that a reentrant sender drop triggered by the waker's destructor observes a live,
@@ -683,6 +721,8 @@ impl<T: 'static> LocalEvent<T> {
             // SAFETY: The only other potential references to the field are other short-lived
             // references in this type, which cannot exist at the moment because
             // the type is single-threaded and does not let any references escape.
+            #[cfg(folo_verif)]
+            crate::verif_hook::field(event_cell.get(), crate::verif_hook::FIELD_AWAITER);
             let awaiter_cell_maybe = unsafe { event.awaiter.get().as_mut() };
             // SAFETY: UnsafeCell pointer is never null.
             let awaiter_cell = unsafe { awaiter_cell_maybe.unwrap_unchecked() };
@@ -698,6 +738,8 @@ impl<T: 'static> LocalEvent<T> {
         // have advanced us from EVENT_BOUND to EVENT_DISCONNECTED. In this single-threaded
         // design the reentrant sender is the only actor that could have changed the state while
         // we were dropping the waker.
+        #[cfg(folo_verif)]
+        crate::verif_hook::touch(event_cell.get());
         let previous_state = event.state.get();
 
         // We can immediately set this because this is a single-threaded event, so there cannot
@@ -717,6 +759,8 @@ impl<T: 'static> LocalEvent<T> {
                 // SAFETY: The only other potential references to the field are other short-lived
                 // references in this type, which cannot exist at the moment because
                 // the type is single-threaded and does not let any references escape.
+                #[cfg(folo_verif)]
+                crate::verif_hook::field(event_cell.get(), crate::verif_hook::FIELD_VALUE);
                 let value_cell_maybe = unsafe { event.value.get().as_mut() };
                 // SAFETY: UnsafeCell pointer is never null.
                 let value_cell = unsafe { value_cell_maybe.unwrap_unchecked() };
